@@ -41,10 +41,13 @@ func graphs() map[string][]refsem.Tuple {
 		"shared":   {tss("o1", "a", "o2", "p"), tss("o1", "b", "o1", "a"), tss("o1", "b", "o1", "p")},
 		"deepdup":  {tss("o1", "a", "o2", "b"), tss("o1", "b", "o2", "b"), tss("o2", "b", "o3", "a"), tid("o3", "a", "u"), tid("o3", "a", "u")},
 		"none":     {tid("o2", "a", "u"), tid("o1", "b", "v")},
+		// two parents under the traversed relation; the subject is reachable only through the FIRST
+		// parent and there only through a subject-set indirection (pagination with page size 1 needs it too)
+		"twoparents": {tss("o1", "a", "o2", ""), tss("o1", "a", "o3", ""), tss("o2", "b", "g1", "b"), tid("g1", "b", "u")},
 	}
 }
 
-var graphOrder = []string{"direct", "chain", "cycle", "parents", "shared", "deepdup", "none"}
+var graphOrder = []string{"direct", "chain", "cycle", "parents", "shared", "deepdup", "none", "twoparents"}
 
 // sCatalogue: every expression with <= k leaves over the leaf kinds x graphs x queries, default mode
 // (untyped literal namespaces), without recursion through `not`.
